@@ -12,7 +12,7 @@ use vstd::std_specs::iter::IteratorSpec;
 use vstd::std_specs::cmp::OrdSpec;
 verus! {
 
-//@broadcast vstd::std_specs::btree::group_btree_axioms, vstd::std_specs::btree::axiom_increasing_seq_meaning, ax2::axiom_str_key_contains, ax2::axiom_str_key_maps, ax2::axiom_string_ext
+//@broadcast vstd::std_specs::btree::group_btree_axioms, vstd::std_specs::btree::axiom_increasing_seq_meaning
 
 //@item src/lib/util/interpreter_util.rs enum State
 //@item src/lib/util/preprocessor_util.rs enum LabelType
@@ -204,27 +204,6 @@ pub assume_specification [str::to_ascii_lowercase] (s: &str) -> (r: String)
     ensures r@ == lower_of(s@);
 pub assume_specification [std::process::exit] (code: i32) -> !
     ensures false;
-
-// looking a String key up by a &str: std's Borrow<str> for String hashes and compares like the String (assumed)
-pub use ax2::has_key;
-pub mod ax2 {
-    use vstd::prelude::*;
-    use vstd::std_specs::hash::*;
-    pub open spec fn has_key<V>(m: Map<String, V>, k: Seq<char>) -> bool { exists|s: String| #[trigger] m.contains_key(s) && s@ == k }
-    #[verifier::external_body]
-    pub broadcast proof fn axiom_str_key_contains<V>(m: Map<String, V>, k: &str)
-        ensures #[trigger] contains_borrowed_key::<String, V, str>(m, k) <==> has_key(m, k@),
-    {}
-    #[verifier::external_body]
-    pub broadcast proof fn axiom_str_key_maps<V>(m: Map<String, V>, k: &str, v: V)
-        ensures #[trigger] maps_borrowed_key_to_value::<String, V, str>(m, k, v) <==> (exists|s: String| #[trigger] m.contains_key(s) && s@ == k@ && m[s] == v),
-    {}
-    // two Strings with the same characters are the same String
-    #[verifier::external_body]
-    pub broadcast proof fn axiom_string_ext(a: String, b: String)
-        ensures #[trigger] a@ == #[trigger] b@ ==> a == b,
-    {}
-}
 
 // ---------------------------------------------------------------- what a valid assembler output looks like (ASSUMED of `preprocess`)
 pub open spec fn is_code(l: Label) -> bool { l.r#type is CODE }
